@@ -141,8 +141,11 @@ def check_hist(ctx, depth, first):
                     if not done:
                         bad = "step %d: invoke by name on a created sandbox failed: %s" % (k, q.info)
                 else:
-                    dontcare = True
-                    break
+                    # invoking while the sandbox is not created is outside the statement: this step may abort or go through,
+                    # but it must leave nothing behind for the next incarnation, so the history continues
+                    if not done:
+                        dontcare = True
+                        break
             elif op == 9:
                 if st[0] != "C":
                     dontcare = True
@@ -225,6 +228,33 @@ def check_recreate_sym(ctx):
     ctx.expected_ok = len(paths) >= 2
 
 
+def check_symbol_between(ctx):
+    ctx.eng.max_strlen = 64
+    b0 = ctx.sandbox_base(32, "b0", aligned=False)
+    how = ctx.sym("how", 32)
+    ctx.assume(z3.ULE(how, 1))
+    paths = ctx.run("k_symbol_between", [b0, how])
+    n = 0
+    for q in paths:
+        lg = q.user.get("log") or []
+        if not [e for e in lg if e[0] == 8]:
+            # the misuse between the incarnations was refused (abort): nothing more to require
+            ctx.obligations += 1
+            ctx.discharged += 1
+            continue
+        n += 1
+        cut = [i for i, e in enumerate(lg) if e[0] == 8][0]
+        g = [e for e in lg[cut:] if e[0] == 30]
+        a2 = [e for e in lg if e[0] == 32]
+        ok = q.status == "ret" and len(g) == 1 and g[0][1] == 0xB and bool(a2) and a2[0][1] == 0x108
+        ctx.require(q, z3.BoolVal(ok), "a symbol looked up while the object was not created is not served to the next incarnation: it uses its own library "
+                                       "(guest calls %s, address %s, %s)" % ([hex(e[1]) for e in g], [hex(e[1]) for e in a2], q.status))
+    if n == 0:
+        ctx.inconclusive.append("k_symbol_between: every path refused the lookup between incarnations")
+    ctx.expect(paths)
+    ctx.expected_ok = True
+
+
 def check_registry(ctx):
     b0 = ctx.sandbox_base(32, "b0", aligned=False)
     b1 = ctx.sandbox_base(32, "b1", aligned=False)
@@ -298,7 +328,8 @@ def jobs(tier, seed):
     fl = ["-D_GLIBCXX_EXTERN_TEMPLATE=0"]
     extra = [Job("C14_registry", src, [dict(name="registry exactness with two sandboxes", fn=check_registry, unwind=400)], native=False, flags=fl),
              Job("C14_recreate_cb", src, [dict(name="re-creation: callback registrations", fn=check_recreate_cb, unwind=400)], native=False, flags=fl),
-             Job("C14_recreate_sym", src, [dict(name="re-creation: cached symbol addresses", fn=check_recreate_sym, unwind=400)], native=False, flags=fl)]
+             Job("C14_recreate_sym", src, [dict(name="re-creation: cached symbol addresses", fn=check_recreate_sym, unwind=400),
+                                           dict(name="re-creation: symbols looked up between incarnations", fn=check_symbol_between, unwind=400)], native=False, flags=fl)]
     from specs import C13
     extra.append(Job("C14_create_throw", '#include "C14_exc.inc"\n', [dict(name="creation that fails by throwing", fn=check_create_throw, unwind=400),
                                                                        dict(name="refused second create leaves the sandbox created", fn=check_double_create, unwind=400)], native=False, flags=fl))
